@@ -60,7 +60,7 @@ func quantMLS(mls orb.MultiLineString, s float64) ([][][2]int, bool) {
 
 // c07Call runs one clip call on lattice input; returns the event(s).
 func c07Call(c *ctx, fn string, S int, box [4]int, paths [][][2]int, open int, re int) (out [][][2]int) {
-	s := float64(S)
+	s := float64(S) * figScale()
 	e := clipLineEv{K: "clipline", Fn: fn, Box: box, Paths: paths, Open: open, Re: re, S: S}
 	b := toBound(box, s)
 	var in orb.MultiLineString
